@@ -15,10 +15,13 @@ import (
 
 // Part "trap": dedup.IntervalTrap on a harness clock with a gated task.
 
-// TStep kinds: 0 trap (a new concurrent caller of Trap), 1 finish the running task, 2 advance(adv ms).
+// TStep kinds: 0 trap (a new concurrent caller of Trap), 1 finish the running task, 2 advance(adv ms),
+// 3 burst: N callers call Trap at the same moment (task not gated; the Go scheduler picks the interleaving).
 type TStep struct {
 	K   int `json:"k"`
 	Adv int `json:"adv,omitempty"`
+	N   int `json:"n,omitempty"`
+	R   int `json:"r,omitempty"` // burst rounds; before every round but the first the clock moves past the interval
 }
 
 type TCase struct {
@@ -30,12 +33,16 @@ const tMaxCallers = 16
 
 func genT(t *rapid.T) TCase {
 	c := TCase{Interval: rapid.SampledFrom([]int{1000, 10000, 60000}).Draw(t, "interval")}
-	advs := []int{c.Interval / 2, c.Interval - 1, c.Interval, c.Interval + 1, 2 * c.Interval, 100}
+	advs := []int{c.Interval / 2, c.Interval - 1, c.Interval, c.Interval + 1, c.Interval + 1, 2 * c.Interval, 3 * c.Interval, 100}
 	n := rapid.IntRange(2, 24).Draw(t, "nsteps")
 	for i := 0; i < n; i++ {
-		s := TStep{K: rapid.SampledFrom([]int{0, 0, 0, 1, 2, 2}).Draw(t, "k")}
+		s := TStep{K: rapid.SampledFrom([]int{0, 0, 0, 1, 2, 2, 2, 3, 3}).Draw(t, "k")}
 		if s.K == 2 {
 			s.Adv = rapid.SampledFrom(advs).Draw(t, "adv")
+		}
+		if s.K == 3 {
+			s.N = rapid.IntRange(2, 6).Draw(t, "n")
+			s.R = rapid.IntRange(1, 10).Draw(t, "r")
 		}
 		c.Steps = append(c.Steps, s)
 	}
@@ -58,6 +65,10 @@ func (t *tTask) Run() {
 	h := t.h
 	e := &tEntry{release: make(chan struct{})}
 	e.n = atomic.AddInt32(&h.inflight, 1)
+	auto := atomic.LoadInt32(&h.auto) != 0
+	if auto {
+		close(e.release)
+	}
 	h.entered <- e
 	<-e.release
 	atomic.AddInt32(&h.inflight, -1)
@@ -72,6 +83,7 @@ type tH struct {
 	entered  chan *tEntry
 	results  chan *tCaller
 	inflight int32
+	auto     int32
 	wg       sync.WaitGroup
 	entries  []*tEntry
 
@@ -95,7 +107,28 @@ func (h *tH) checkEntry(e *tEntry) *pbt.Verdict {
 	return nil
 }
 
-func (h *tH) spawn() *tCaller {
+func (h *tH) next() (r *tCaller, e *tEntry, kind string) {
+	var d *dog
+	for {
+		select {
+		case r := <-h.results:
+			return r, nil, ""
+		case e := <-h.entered:
+			return nil, e, ""
+		case <-time.After(dogTick):
+			if d == nil {
+				d = newDog()
+			}
+			if k := d.tick(); k != "" {
+				return nil, nil, k
+			}
+		}
+	}
+}
+
+func (h *tH) spawn() *tCaller { return h.spawnAt(nil) }
+
+func (h *tH) spawnAt(barrier *spinBarrier) *tCaller {
 	c := &tCaller{id: h.ncall}
 	h.ncall++
 	ready := make(chan struct{})
@@ -104,6 +137,9 @@ func (h *tH) spawn() *tCaller {
 		defer h.wg.Done()
 		c.gid = gid()
 		close(ready)
+		if barrier != nil {
+			barrier.wait()
+		}
 		func() {
 			defer func() { recover() }()
 			h.trap.Trap()
@@ -147,8 +183,12 @@ func (h *tH) doTrap() *pbt.Verdict {
 		return nil
 	}
 	c := h.spawn()
-	select {
-	case e := <-h.entered:
+	r, e, kind := h.next()
+	switch {
+	case kind != "":
+		v := stall(kind, "IntervalTrap: Trap neither ran the task nor returned", c.gid)
+		return &v
+	case e != nil:
 		if v := h.checkEntry(e); v != nil {
 			return v
 		}
@@ -163,25 +203,97 @@ func (h *tH) doTrap() *pbt.Verdict {
 		h.behind = map[*tCaller]bool{c: true}
 		h.runs++
 		return nil
-	case r := <-h.results:
-		if r != c {
+	}
+	if r != c {
+		v := pbt.Fail("harness: unexpected return of trap caller %d", r.id)
+		return &v
+	}
+	if since > iv {
+		v := pbt.Fail("IntervalTrap: Trap returned without running the task although %d ms have passed since its last run (interval %d ms)", since, iv)
+		return &v
+	}
+	if since == iv {
+		h.cls["interval-boundary"] = true
+	}
+	h.declined++
+	h.cls["declined-within-interval"] = true
+	return nil
+}
+
+// burst lets n callers race through Trap with an ungated task. Whatever the
+// interleaving, the task may run at most once (and must run once if it is due).
+func (h *tH) burst(n int) *pbt.Verdict {
+	if h.running != nil || n < 2 || n > 8 {
+		h.cls["skip-burst"] = true
+		return nil
+	}
+	since := h.now - h.lastEnd
+	iv := int64(h.c.Interval)
+	atomic.StoreInt32(&h.auto, 1)
+	defer atomic.StoreInt32(&h.auto, 0)
+	barrier := &spinBarrier{}
+	set := map[*tCaller]bool{}
+	var ids []int64
+	for i := 0; i < n; i++ {
+		c := h.spawnAt(barrier)
+		set[c] = true
+		ids = append(ids, c.gid)
+	}
+	h.ncall -= n // burst callers do not count towards the cap
+	barrier.open()
+	ran := 0
+	for len(set) > 0 {
+		r, e, kind := h.next()
+		switch {
+		case kind != "":
+			v := stall(kind, "IntervalTrap: concurrent Trap callers did not return", ids...)
+			return &v
+		case e != nil:
+			if v := h.checkEntry(e); v != nil {
+				return v
+			}
+			ran++
+			continue
+		}
+		if !set[r] {
 			v := pbt.Fail("harness: unexpected return of trap caller %d", r.id)
 			return &v
 		}
-		if since > iv {
-			v := pbt.Fail("IntervalTrap: Trap returned without running the task although %d ms have passed since its last run (interval %d ms)", since, iv)
-			return &v
+		delete(set, r)
+	}
+	for {
+		select {
+		case e := <-h.entered:
+			if v := h.checkEntry(e); v != nil {
+				return v
+			}
+			ran++
+			continue
+		default:
 		}
-		if since == iv {
-			h.cls["interval-boundary"] = true
-		}
-		h.declined++
-		h.cls["declined-within-interval"] = true
-		return nil
-	case <-time.After(stallLimit):
-		v := stall("IntervalTrap: Trap neither ran the task nor returned", c.gid)
+		break
+	}
+	switch {
+	case ran > 1:
+		v := pbt.Fail("IntervalTrap: the task ran %d times within one interval (%d concurrent Trap callers, clock not moved, interval %d ms)", ran, n, iv)
+		return &v
+	case ran == 1 && since < iv:
+		v := pbt.Fail("IntervalTrap: the task ran again %d ms after its previous run ended (interval %d ms)", since, iv)
+		return &v
+	case ran == 0 && since > iv:
+		v := pbt.Fail("IntervalTrap: %d concurrent Trap calls returned without running the task although %d ms have passed since its last run (interval %d ms)", n, since, iv)
 		return &v
 	}
+	if ran == 1 {
+		h.lastEnd = h.now
+		h.runs++
+		h.declined += n - 1
+		h.cls["burst-one-run"] = true
+	} else {
+		h.declined += n
+		h.cls["burst-no-run"] = true
+	}
+	return nil
 }
 
 func (h *tH) finish() *pbt.Verdict {
@@ -194,27 +306,27 @@ func (h *tH) finish() *pbt.Verdict {
 	h.lastEnd = h.now
 	nb := len(h.behind)
 	for len(h.behind) > 0 {
-		select {
-		case r := <-h.results:
-			if !h.behind[r] {
-				v := pbt.Fail("harness: unexpected return of trap caller %d", r.id)
-				return &v
+		r, e, kind := h.next()
+		switch {
+		case kind != "":
+			var ids []int64
+			for c := range h.behind {
+				ids = append(ids, c.gid)
 			}
-			delete(h.behind, r)
-		case e := <-h.entered:
+			v := stall(kind, "IntervalTrap: Trap callers did not return after the task finished", ids...)
+			return &v
+		case e != nil:
 			if v := h.checkEntry(e); v != nil {
 				return v
 			}
 			v := pbt.Fail("IntervalTrap: the task ran again 0 ms after its previous run ended (interval %d ms): a caller that arrived during the run executed it a second time", h.c.Interval)
 			return &v
-		case <-time.After(stallLimit):
-			var ids []int64
-			for c := range h.behind {
-				ids = append(ids, c.gid)
-			}
-			v := stall("IntervalTrap: Trap callers did not return after the task finished", ids...)
+		}
+		if !h.behind[r] {
+			v := pbt.Fail("harness: unexpected return of trap caller %d", r.id)
 			return &v
 		}
+		delete(h.behind, r)
 	}
 	if nb > 1 {
 		h.cls["callers-behind-run-returned-without-rerun"] = true
@@ -282,6 +394,14 @@ func runT(c TCase) pbt.Verdict {
 			if s.Adv > 0 {
 				h.clk.Add(ms(s.Adv))
 				h.now += int64(s.Adv)
+			}
+		case 3:
+			for r := 0; r < s.R && r < 10 && v == nil; r++ {
+				if r > 0 {
+					h.clk.Add(ms(c.Interval + 1))
+					h.now += int64(c.Interval + 1)
+				}
+				v = h.burst(s.N)
 			}
 		}
 		if v != nil {
